@@ -84,8 +84,8 @@ theorem headerDel_toGenHdr (rest : List (Bytes × List Bytes)) (h : Option Bytes
 /-- a model connection as the translated struct: its request, last event ID and `isRetry` (the other fields are
 opaque to the translated functions: `Unit`) -/
 def gOf (rest : List (Bytes × List Bytes)) (c : Conn) : Gen.Connection :=
-  { mu := (), request := some (toGenReq rest c.req), callbacks := (), callbacksAll := (), lastEventID := c.lastEventID,
-    client := (), buf := (), bufMaxSize := (), callbackID := (), isRetry := c.isRetry }
+  { mu := (), request := some (toGenReq rest c.req), callbacks := [], callbacksAll := [], lastEventID := c.lastEventID,
+    client := (), buf := (), bufMaxSize := (), callbackID := 0, isRetry := c.isRetry, cblog := [] }
 
 /-- `Connection.resetRequest` as translated: the model's error and the model's connection afterwards -/
 theorem resetRequest_eq (fuel : Nat) (rest : List (Bytes × List Bytes)) (hrest : ∀ e ∈ rest, e.1 ≠ leidKey) (c : Conn) :
